@@ -9,6 +9,11 @@ class Deadlock(Exception):
     pass
 
 
+class Abort(BaseException):
+    """raised inside the scheduled threads when a run is given up (deadlock / budget): lets them unwind and end instead of
+    staying parked for ever (a long thorough run would otherwise accumulate thousands of parked threads)"""
+
+
 class VSched:
     wall_hits = 0        # steps that ran into the wall-clock limit in this process (generous until it really happens twice)
 
@@ -27,10 +32,25 @@ class VSched:
     def me(self):
         return self.tid_of[threading.get_ident()]
 
+    aborting = False
+
     def yield_(self):
+        if self.aborting:
+            raise Abort()
         tid = self.me()
         self.main.release()
         self.sem[tid].acquire()
+        if self.aborting:
+            raise Abort()
+
+    def abort(self):
+        """give the run up: every thread that is still alive raises Abort at its next (or current) yield point and ends"""
+        self.aborting = True
+        alive = [t for t in self.sem if t not in self.done]
+        for t in alive:
+            self.sem[t].release()
+        for _ in alive:
+            self.main.acquire(timeout=2)
 
     def block(self, pred, deadline=None, why=""):
         """block the calling thread until pred() or the virtual deadline; True iff pred held"""
@@ -72,6 +92,8 @@ class VSched:
             sys.settrace(self.tracer())
             try:
                 fn()
+            except Abort:
+                pass
             except BaseException as e:
                 self.errors[tid] = e
             finally:
@@ -92,7 +114,10 @@ class VSched:
             if not en:
                 dls = [b[1] for t, b in self.blocked.items() if b[1] is not None and t not in self.done]
                 if not dls:
-                    raise Deadlock({t: (self.pos.get(t), self.blocked.get(t, (None, None, ""))[2]) for t in tids if t not in self.done})
+                    info = {t: (self.pos.get(t), self.blocked.get(t, (None, None, ""))[2]) for t in tids if t not in self.done}
+                    self.blocked_at_deadlock = {t: self.blocked.get(t, (None, None, ""))[2] for t in tids if t not in self.done}
+                    self.abort()
+                    raise Deadlock(info)
                 new = min(dls)
                 if self.on_clock:
                     self.on_clock(self.now, new)
@@ -105,6 +130,7 @@ class VSched:
             if not self.main.acquire(timeout=(40 if VSched.wall_hits < 2 else 5)):
                 VSched.wall_hits += 1
                 raise Deadlock("thread %r did not yield (real blocking call?) at %r" % (t, self.pos.get(t)))
+        self.abort()
         raise Deadlock("step budget exceeded")
 
 
